@@ -174,7 +174,9 @@ RULE = ('integer-valued rasters up to 10x10 with uniform integer coordinates (un
         'optionally a consistent `res` attribute), random chunkings of rows and columns (all compositions, incl. 1-cell chunks '
         'that Dask merges up to the halo size), max_distance chosen relative to the cell sizes (k, k+1/2, just below/above, '
         'sqrt2, ..) so that targets sit just inside / outside the halo, max_distance >= the raster diagonal (single-chunk '
-        'fallback) and inf; metrics EUCLIDEAN and MANHATTAN; schedulers threads / synchronous; within the stated domain '
+        'fallback) and inf; metrics EUCLIDEAN and MANHATTAN; 0 among target_values with coordinates at the origin; 12x16 rasters with 1-2 cell chunks '
+        'and a 4-5 cell halo; two rasters of equal shape/chunking but different cell size computed together with dask.compute; '
+        'schedulers threads / synchronous; within the stated domain '
         '(halo in cells <= raster height/width). Dask and NumPy are both run (two of proximity/allocation/direction per case, '
         'rotating). A case is non-trivial when it has a target, a non-target cell and more than one block. In addition the '
         'extracted model alone is searched for a chunked != whole counter-example on random layouts/chunkings up to 8x8.')
@@ -265,7 +267,7 @@ def model_line(case):
         mdn, mdd = fr.numerator, fr.denominator
     data = c06.cast_data(case)
     h, w = len(data), len(data[0])
-    tv = [float(v) for v in case.get('tv', [])]
+    tvt, cellt = c06.xv_tokens(case)
     py, px = py_pads(case) if not is_fallback(case) else (0, 0)
     rch = effective_chunks(case['chunks'][0], py)
     cch = effective_chunks(case['chunks'][1], px)
@@ -274,9 +276,9 @@ def model_line(case):
         2 if metric == 'MANHATTAN' else 0, len(ties), ' '.join(map(str, ties)), R, M, F,
         xvio.tok_int(mdn), xvio.tok_int(mdd),
         len(xs), ' '.join(map(str, xs)), len(ys), ' '.join(map(str, ys)),
-        len(tv), ' '.join(c06.tok_xv(v) for v in tv),
+        len(tvt), ' '.join(tvt),
         len(rch), ' '.join(map(str, rch)), len(cch), ' '.join(map(str, cch)),
-        h, w, ' '.join(c06.tok_xv(v) for row in data for v in row)), (py, px)
+        h, w, ' '.join(cellt)), (py, px)
 
 
 def whole_line(case):
@@ -492,6 +494,83 @@ def model_search(ctx, n):
     return suspects
 
 
+def special_cases(ctx):
+    """named hard cases: 0 among target_values with coordinates at the origin (a halo filled with anything but NaN would
+    add phantom targets); chunks much smaller than the halo with targets several chunks away"""
+    rng = ctx.rng
+    out = []
+    for i in range(3):
+        h, w = rng.randint(5, 9), rng.randint(5, 9)
+        g = [[rng.randint(1, 9) for _ in range(w)] for _ in range(h)]
+        # the zero (target) cells lie away from the origin corner
+        for _ in range(rng.randint(1, 3)):
+            g[rng.randint(h // 2, h - 1)][rng.randint(w // 2, w - 1)] = 0
+        tv = [0.0] if i < 2 else [0.0, float(rng.randint(1, 9))]
+        out.append(dict(fn='dask', layout='zero-is-target', metric='EUCLIDEAN' if i != 1 else 'MANHATTAN',
+                        data=[[float(v) for v in row] for row in g], dtype=rng.choice(['float64', 'int32']),
+                        xs=list(range(w)), ys=list(range(h)), cdtype='float64', ykind='asc', xkind='asc', tv=tv,
+                        mode='target_values', max_distance=rng.choice([1.0, 1.5, 2.0, 3.0]),
+                        chunks=[compositions_random(rng, h, 'any'), compositions_random(rng, w, 'small')],
+                        scheduler='threads', only=ONLY[i % 3]))
+    for i in range(2):
+        h, w = 12, 16
+        g = c06.gen_layout(rng, h, w, 'multi')
+        cs = rng.choice([1, 2])
+        k = rng.choice([4, 5])
+        out.append(dict(fn='dask', layout='halo-spans-chunks', metric='EUCLIDEAN',
+                        data=[[float(v) for v in row] for row in g], dtype='float64',
+                        xs=[cs * j for j in range(w)], ys=[cs * j for j in range(h)][::-1] if i else [cs * j for j in range(h)],
+                        cdtype='float64', ykind='desc' if i else 'asc', xkind='asc', tv=[], mode='default',
+                        max_distance=float(k * cs), chunks=[[2] * (h // 2), [2] * (w // 2)] if i == 0 else
+                        [[1, 2, 1, 2, 2, 1, 3], [2, 1, 1, 2, 2, 2, 2, 1, 3]],
+                        scheduler='threads', only=ONLY[i % 3]))
+    return out
+
+
+def pair_cases(ctx):
+    """two rasters of the same shape and chunking but different cell size, evaluated lazily and computed together"""
+    rng = ctx.rng
+    out = []
+    for i in range(2):
+        h, w = rng.randint(4, 7), rng.randint(4, 8)
+        g = c06.gen_layout(rng, h, w, 'multi')
+        base = dict(fn='dask-pair', layout='pair', metric='EUCLIDEAN', data=[[float(v) for v in row] for row in g],
+                    dtype='float64', cdtype='float64', ykind='asc', xkind='asc', tv=[], mode='default',
+                    max_distance='inf' if i == 0 else 4.0, scheduler='threads')
+        a = dict(base, xs=list(range(w)), ys=list(range(h)))
+        b = dict(base, xs=[3 * j for j in range(w)], ys=[2 * j for j in range(h)])
+        chunks = [compositions_random(rng, h, 'small'), compositions_random(rng, w, 'small')]
+        out.append((a, b, chunks, ['proximity', 'direction'][i % 2]))
+    return out
+
+
+def check_pairs(ctx, pairs, pool):
+    reqs = []
+    for a, b, chunks, name in pairs:
+        reqs.append({'op': 'numpy3', 'case': a, 'only': [name]})
+        reqs.append({'op': 'numpy3', 'case': b, 'only': [name]})
+        reqs.append({'op': 'dask_pair', 'case': a, 'case_b': b, 'chunks': chunks, 'name': name})
+    res = pool.map(reqs)
+    for i, (a, b, chunks, name) in enumerate(pairs):
+        ra, rb, rp = res[3 * i: 3 * i + 3]
+        rep = dict(a, chunks=chunks, function=name, second_raster=dict(xs=b['xs'], ys=b['ys']))
+        ctx.case(rep)
+        ctx.count('pair-computed-together/%s' % name)
+        if 'fatal' in rp or 'pair' not in rp:
+            ctx.violation('oracle', 'dask.compute(a, b) of two lazy %s results failed: %s' % (name, rp.get('fatal')), rep)
+            continue
+        for which, rn, got in (('first', ra, rp['pair'][0]), ('second', rb, rp['pair'][1])):
+            gn, _ = c06.canon_impl(rn)
+            if name not in gn:
+                continue
+            if not grids_equal(gn[name], got['v']):
+                r, c, p, q = first_diff(gn[name], got['v'])
+                ctx.violation('oracle', 'two lazy Dask %s results computed together: the %s raster differs from NumPy at cell '
+                              '(%d,%d): numpy %r, dask %r' % (name, which, r, c, p, q),
+                              dict(rep, which=which, cell=[r, c], numpy=p, dask=q))
+                break
+
+
 KEY_SINGLE = 'dask-single-row-or-column-zero-division'
 
 
@@ -537,7 +616,7 @@ def check_edges(ctx, cases, pool):
 
 
 def run(ctx):
-    n = 40 if ctx.quick() else 300
+    n = 26 if ctx.quick() else 300
     cases = gen_cases(ctx, n)
     suspects = model_search(ctx, 1500 if ctx.quick() else 30000)
     for s in suspects[:6]:
@@ -547,7 +626,8 @@ def run(ctx):
         if suspects:
             ctx.notes.append('model search: %d chunk-dependent model results, replayed on the implementation' % len(suspects))
             check_cases(ctx, suspects[:6], pool)
-        check_cases(ctx, cases, pool)
+        check_cases(ctx, special_cases(ctx) + cases, pool)
+        check_pairs(ctx, pair_cases(ctx), pool)
         check_edges(ctx, edge_cases(ctx), pool)
     finally:
         pool.close()
@@ -558,10 +638,11 @@ def search(ctx):
     model = ctx.model
     ctx.model = None
     try:
-        cases = gen_cases(ctx, 80)
+        cases = special_cases(ctx) + special_cases(ctx) + gen_cases(ctx, 60)
         pool = c06.ImplPool(NWORKERS)
         try:
             check_cases(ctx, cases, pool, use_model=False)
+            check_pairs(ctx, pair_cases(ctx), pool)
         finally:
             pool.close()
     finally:
@@ -569,7 +650,7 @@ def search(ctx):
 
 
 def replay_case(ctx, case):
-    keep = {k: v for k, v in case.items() if k not in ('cell', 'numpy', 'dask', 'function', 'impl', 'model',
+    keep = {k: v for k, v in case.items() if k not in ('cell', 'numpy', 'dask', 'impl', 'model',
                                                        'model_pads', 'py_pads', '_err')}
     for row in keep['data']:
         for i, v in enumerate(row):
@@ -581,5 +662,22 @@ def replay_case(ctx, case):
 
     class Direct:
         def map(self, reqs):
-            return [c06._call3(r['case'], r.get('chunks'), r.get('only')) for r in reqs]
-    check_cases(ctx, [keep], Direct())
+            out = []
+            for r in reqs:
+                if r['op'] == 'dask_pair':
+                    out.append(c06._call_pair(r['case'], r['case_b'], r['chunks'], r['name']))
+                else:
+                    out.append(c06._call3(r['case'], r.get('chunks') if r['op'] == 'dask3' else None, r.get('only')))
+            return out
+    if keep.get('fn') == 'dask-pair':
+        sec = keep.pop('second_raster')
+        which = keep.pop('which', None)
+        name = keep.get('function', 'proximity')
+        chunks = keep['chunks']
+        a = {k: v for k, v in keep.items() if k not in ('chunks', 'only')}
+        b = dict(a, xs=sec['xs'], ys=sec['ys'])
+        check_pairs(ctx, [(a, b, chunks, name)], Direct())
+    elif keep.get('layout') == 'single-line':
+        check_edges(ctx, [keep], Direct())
+    else:
+        check_cases(ctx, [keep], Direct())
